@@ -12,7 +12,7 @@
    input at any time (nothing invented, reordered or duplicated), and if the driver finished
    the items sent are exactly [ref items] and the downstream was finalized. *)
 From Coq Require Import List NArith Bool.
-From HV Require Import Push.Model Push.PBase Push.POne Push.PTwo Push.PFlatMap.
+From HV Require Import Push.Model Push.PBase Push.POne Push.PTwo Push.PFlatMap Push.PMore Push.PTwoOnce.
 Import ListNotations.
 
 Theorem C12_map : forall A B (f : A -> B) fuel items rs0 fs0,
@@ -70,6 +70,27 @@ Theorem C12_flatten : forall B fuel (items : list (list B)) rs0 fs0,
 Proof. exact flatten_correct. Qed.
 Print Assumptions C12_flatten.
 
+Theorem C12_flat_map_terminates : forall A B (g : A -> list B) fuel items rs0 fs0,
+    npend rs0 + npend fs0 + length items < fuel ->
+    fst (fst (drive (flat_map_push (rec_push B) g) fuel items (None, mkds rs0 fs0 []) [])) = Finished.
+Proof. exact (@flat_map_terminates). Qed.
+Print Assumptions C12_flat_map_terminates.
+
+Theorem C12_flatten_terminates : forall B fuel (items : list (list B)) rs0 fs0,
+    npend rs0 + npend fs0 + length items < fuel ->
+    fst (fst (drive (flatten_push (rec_push B)) fuel items (None, mkds rs0 fs0 []) [])) = Finished.
+Proof. exact flatten_terminates. Qed.
+Print Assumptions C12_flatten_terminates.
+
+(* inspect.rs: items pass through unchanged, and the closure saw exactly the items sent on *)
+Theorem C12_inspect : forall A fuel (items : list A) rs0 fs0,
+    match drive (inspect_push (rec_push A)) fuel items ([], mkds rs0 fs0 []) [] with
+    | (o, _, s') => o <> Panicked /\ down_spec (fun xs => xs) items o (lg (snd s')) /\
+                    rev (fst s') = sent (lg (snd s'))
+    end.
+Proof. exact (@inspect_correct). Qed.
+Print Assumptions C12_inspect.
+
 (* Two downstreams.  FULL statement (strict protocol toward both downstreams):
      forall ..., o <> Panicked /\ down_spec (map fst) items o (lg (fst s')) /\
                                   down_spec (map snd) items o (lg (snd s'))
@@ -122,6 +143,44 @@ Theorem C12_unzip_strict_refuted : exists (items : list (N * N)) r0 f0 r1 f1,
     end.
 Proof. exact unzip_strict_refuted. Qed.
 Print Assumptions C12_unzip_strict_refuted.
+
+(* The same combinators AFTER the proposed finalize-once fix
+   (fixes/C12_fanout_unzip_finalize_once.diff; models fanout_once_push / unzip_once_push, selected
+   by the correspondence check when the source it runs against contains the fix): the FULL
+   statement, strict protocol toward both downstreams, holds. *)
+Theorem C12_unzip_fixed : forall A B fuel (items : list (A * B)) r0 f0 r1 f1,
+    match drive (unzip_once_push (rec_push A) (rec_push B)) fuel items
+                ((false, false), (mkds r0 f0 [], mkds r1 f1 [])) [] with
+    | (o, _, s') => o <> Panicked /\
+                    down_spec (map fst) items o (lg (fst (snd s'))) /\
+                    down_spec (map snd) items o (lg (snd (snd s')))
+    end.
+Proof. exact unzip_once_correct. Qed.
+Print Assumptions C12_unzip_fixed.
+
+Theorem C12_fanout_fixed : forall A fuel (items : list A) r0 f0 r1 f1,
+    match drive (fanout_once_push (rec_push A) (rec_push A)) fuel items
+                ((false, false), (mkds r0 f0 [], mkds r1 f1 [])) [] with
+    | (o, _, s') => o <> Panicked /\
+                    down_spec (fun xs => xs) items o (lg (fst (snd s'))) /\
+                    down_spec (fun xs => xs) items o (lg (snd (snd s')))
+    end.
+Proof. exact fanout_once_correct. Qed.
+Print Assumptions C12_fanout_fixed.
+
+Theorem C12_fanout_fixed_terminates : forall A fuel (items : list A) r0 f0 r1 f1,
+    npend r0 + npend f0 + npend r1 + npend f1 + length items < fuel ->
+    fst (fst (drive (fanout_once_push (rec_push A) (rec_push A)) fuel items
+                    ((false, false), (mkds r0 f0 [], mkds r1 f1 [])) [])) = Finished.
+Proof. exact fanout_once_terminates. Qed.
+Print Assumptions C12_fanout_fixed_terminates.
+
+Theorem C12_unzip_fixed_terminates : forall A B fuel (items : list (A * B)) r0 f0 r1 f1,
+    npend r0 + npend f0 + npend r1 + npend f1 + length items < fuel ->
+    fst (fst (drive (unzip_once_push (rec_push A) (rec_push B)) fuel items
+                    ((false, false), (mkds r0 f0 [], mkds r1 f1 [])) [])) = Finished.
+Proof. exact unzip_once_terminates. Qed.
+Print Assumptions C12_unzip_fixed_terminates.
 
 (* non-vacuity: a run with Pend answers in both scripts that finishes and delivers items *)
 Example C12_map_example :
